@@ -113,8 +113,19 @@ def install():
                 r.receivers.append((self.name, tuple(tsnap(x) for x in self.supertypes),
                                     prov._creator(2, 3)))
             probe = ledger_probe(r, True) if r.rnd.random() < 0.1 else None
+            in_ok = all(nested_bad(a) is None for a in type_args)
             res = orig_new(self, type_args)
             r.c07_calls['new'] += 1
+            if in_ok and not any(refrel.has_tvars(tsnap(a)) for a in type_args):
+                bad = nested_bad(res)
+                if bad is not None and bad[0] is not res:
+                    c07_violation(r, 'new-nested-supertypes', 'TypeConstructor.new',
+                                  '%s.new(%s): the nested instantiation %s has supertypes %s, its '
+                                  'class declares (after replacing the parameters by its '
+                                  'arguments) %s' % (
+                                      self.name, ', '.join(map(str, type_args)),
+                                      tstr(tsnap(bad[0])), [tstr(x) for x in bad[1]],
+                                      [tstr(x) for x in bad[2]]))
             if deep(self) != b_self:
                 c07_violation(r, 'new-mutates-constructor', 'TypeConstructor.new',
                               'TypeConstructor %s changed during new(%s)' % (
@@ -169,6 +180,38 @@ def install():
                     walk(u_res, u_def.t_constructor, list(e[2]), depth + 1)
         walk(res, tc, args_s, 0)
 
+    def nested_bad(t, depth=0, budget=None):
+        """first parameterized type nested in t (type arguments, projection bounds,
+        supertypes) whose arguments are type-variable-free but whose supertypes are NOT its
+        constructor's supertypes with the parameters replaced by those arguments; None if
+        every nested instantiation keeps its meaning"""
+        if budget is None:
+            budget = [60]
+        if t is None or depth > 6 or budget[0] <= 0:
+            return None
+        budget[0] -= 1
+        if isinstance(t, tp.WildCardType):
+            return nested_bad(t.bound, depth + 1, budget)
+        if not isinstance(t, tp.ParameterizedType):
+            return None
+        args = [tsnap(a) for a in t.type_args]
+        tc = t.t_constructor
+        if len(tc.type_parameters) == len(args) and not any(refrel.has_tvars(a) for a in args):
+            m = {p.name: a for p, a in zip(tc.type_parameters, args)}
+            exp = [refrel.subst(tsnap(u), m) for u in tc.supertypes]
+            got = [tsnap(u) for u in t.supertypes]
+            if exp != got:
+                return (t, got, exp)
+        for a in t.type_args:
+            b = nested_bad(a, depth + 1, budget)
+            if b is not None:
+                return b
+        for u in t.supertypes:
+            b = nested_bad(u, depth + 1, budget)
+            if b is not None:
+                return b
+        return None
+
     def ref_subst_by_snap(t, m):
         if t is None:
             return None
@@ -201,8 +244,21 @@ def install():
         try:
             b_t = deep(t)
             b_m = map_snap(type_map)
+            in_ok = nested_bad(t) is None and all(
+                nested_bad(x) is None for x in list(type_map.values())[:6])
             res = orig_subst(t, type_map)
             r.c07_calls['substitute_type'] += 1
+            if in_ok:
+                r.c07_calls['nested-instantiations-keep-supertypes'] = r.c07_calls.get(
+                    'nested-instantiations-keep-supertypes', 0) + 1
+                bad = nested_bad(res)
+                if bad is not None:
+                    c07_violation(r, 'substitute-nested-supertypes', 'substitute_type',
+                                  'substitute_type(%s, ..) = %s: the nested instantiation %s has '
+                                  'supertypes %s, its class declares (after replacing the '
+                                  'parameters by its arguments) %s' % (
+                                      tstr(tsnap(t)), tstr(tsnap(res)), tstr(tsnap(bad[0])),
+                                      [tstr(x) for x in bad[1]], [tstr(x) for x in bad[2]]))
             if deep(t) != b_t:
                 c07_violation(r, 'substitute-mutates-type', 'substitute_type',
                               'substitute_type changed its input type %s' % t)
